@@ -301,18 +301,3 @@ end Real
 
 end GB
 
-#print axioms GB.G_mul_Dtw
-#print axioms GB.G_mul_Dtw_iterate
-#print axioms GB.G_mul_Dtw_Dtw
-#print axioms GB.G_pow_mul_Dtw
-#print axioms GB.Dspec_one_antisymm
-#print axioms GB.Dspec_swap
-#print axioms GB.diffPlanes_eq
-#print axioms GB.diffTab_eq
-#print axioms GB.diffPlanes_unpadded_ne
-#print axioms GB.deriv_gauss_poly
-#print axioms GB.iteratedDeriv_gaussPoly
-#print axioms GB.iteratedDeriv_prim
-#print axioms GB.gauss_product_integral_poly
-#print axioms GB.Dspec_eq_integral
-#print axioms GB.diffTab_eq_integral
